@@ -46,12 +46,16 @@ def _include_options(sites, src, dst):
     return opts
 
 
-def h_route(ctx, shape, src, dst, symmetric=True):
+def h_route(ctx, shape, src, dst, symmetric=True, triples=False):
     from gnpy.core.elements import Roadm, Transceiver
     from gnpy.core.exceptions import ServiceError
     from gnpy.topology.request import correct_json_route_list, compute_path_dsjctn, find_reversed_path
     m = build_mesh(ctx, shape, symmetric_lengths=symmetric)
     opts = _include_options(m.sites, src, dst)
+    if triples:
+        # include lists of three ROADMs in every order (most of them cannot be crossed in that order)
+        inner = [s for s in m.sites if s not in (src, dst)]
+        opts = [(tuple(f'roadm {x}' for x in t), (h,) * 3) for t in itertools.permutations(inner, 3) for h in ('STRICT', 'LOOSE')]
     nodes, loose = ctx.choice('include', opts)
     rq = request('r1', src, dst, nodes, loose)
     info = dict(shape=shape, src=src, dst=dst, include=list(nodes), hop_types=list(loose))
@@ -128,14 +132,18 @@ def h_route(ctx, shape, src, dst, symmetric=True):
               all(m.graph.has_edge(a, b) for a, b in zip(rev[:-1], rev[1:])), info=dict(info, reverse=[e.uid for e in rev]))
 
 
-def h_route_after_split(ctx, shape, src, dst, long_link):
+def h_route_after_split(ctx, shape, src, dst, long_link, two_fibres=False):
     """the same meshes taken through the real add_missing_elements_in_network, one link being long enough to be split
     (symbolic length up to 500 km; the number of spans forks): every edge leaving a fibre still weighs that fibre's length,
     and the route returned is the shortest by total fibre length"""
     from gnpy.core.elements import Fiber
     from gnpy.core.network import add_missing_elements_in_network
     from gnpy.topology.request import compute_path_dsjctn
-    m = build_mesh(ctx, shape, symmetric_lengths=True, with_oms=False, long_links={frozenset(long_link): 500}, hi_km=140)
+    if two_fibres:
+        # the designated link is given as two fibres plugged into each other (auto-design inserts the in-line amplifier)
+        m = build_mesh(ctx, shape, symmetric_lengths=True, with_oms=False, hi_km=140, two_fibre_links={frozenset(long_link)})
+    else:
+        m = build_mesh(ctx, shape, symmetric_lengths=True, with_oms=False, long_links={frozenset(long_link): 500}, hi_km=140)
     add_missing_elements_in_network(m.graph, m.eqpt)
     info = dict(shape=shape, src=src, dst=dst, long_link=list(long_link))
     bad = []
@@ -184,6 +192,13 @@ def jobs(tier):
             js.append(dict(name=f'H11b:route_after_split:{sh}:{s}->{d}:long={link[0]}{link[1]}', fn='h_route_after_split',
                            params=dict(shape=sh, src=s, dst=d, long_link=link), witness_every=5, budget_s=150 if tier == 'quick' else 600,
                            opts=dict(no_ties=True), cost=30))
+    for link in SHAPES['triangle'][1]:
+        js.append(dict(name=f'H11b:route_after_inline_amplifier:triangle:A->C:two_fibres={link[0]}{link[1]}', fn='h_route_after_split',
+                       params=dict(shape='triangle', src='A', dst='C', long_link=link, two_fibres=True), witness_every=5,
+                       budget_s=150 if tier == 'quick' else 600, opts=dict(no_ties=True), cost=30))
+    js.append(dict(name='H11d:route:ring5+chord:A->C:three_include_nodes', fn='h_route',
+                   params=dict(shape='ring5+chord', src='A', dst='C', symmetric=True, triples=True), witness_every=10,
+                   budget_s=150 if tier == 'quick' else 600, opts=dict(no_ties=True), cost=300))
     from harness import c12
     js += c12.include_jobs(tier, 'H11c')
     return js
